@@ -31,7 +31,7 @@ ASSUMPTIONS = [
     "timeouts fire only at quiescent moments (virtual clock)",
     "task exceptions and callback exceptions are Exception subclasses",
 ]
-EXHAUSTIVE = ["all schedules with at most k non-default scheduling choices of the 22 listed micro-programs (quick: k=3 sync / k=2 lines; thorough: k=4 / k=3; a program whose enumeration is truncated by the per-program limit is reported as dfs-program-truncated)"]
+EXHAUSTIVE = ["all schedules with at most k non-default scheduling choices of the 23 listed micro-programs (quick: k=3 sync / k=2 lines; thorough: k=4 / k=3; a program whose enumeration is truncated by the per-program limit is reported as dfs-program-truncated)"]
 
 _tp = [None]
 
@@ -132,6 +132,18 @@ def run_program(prog, chooser, lines=False, policy=()):
                 if ckind == "raise":
                     raise RuntimeError("callback failed")
                 return "ignored"
+            if ckind in ("partial-raise", "object-raise"):
+                # a failing callback that has no __name__ to put into a log line
+                import functools
+
+                def failing(tag, result, exception, extra):
+                    sched.emit("cb-call", reg=rid, args=(result, exception, extra))
+                    raise RuntimeError("callback failed")
+
+                class FailingHandler(object):
+                    def __call__(self, result, exception, extra):
+                        return failing("tag", result, exception, extra)
+                return functools.partial(failing, "tag") if ckind == "partial-raise" else FailingHandler()
             if ckind in ("method", "callable-object", "partial"):
                 # other forms of callable: a bound method of an object that only the registration
                 # references, an instance with __call__, a functools.partial
@@ -404,6 +416,7 @@ MICRO = [
     {"task": "ret", "threads": [[("cb", "same"), ("result", None), ("cb", "same"), ("cb", "same")]], "exec_first": True},
     {"task": "raise", "threads": [[("cb", "same"), ("cb", "same")]], "exec_first": False},
     {"task": "ret", "threads": [[("cb", "method")]], "exec_first": False},
+    {"task": "ret", "threads": [[("cb", "partial-raise"), ("result", None), ("cb", "object-raise"), ("done",)]], "exec_first": False},
     {"task": "raise", "falsy_exc": True, "threads": [[("result", None), ("result", 0), ("cb", "ok"), ("result", -1)]], "exec_first": True},
     {"task": "gated-raise", "threads": [[("result", 0), ("result", 0.0), ("result", None), ("result", 0)]], "exec_first": True},
     {"task": "ret-future-failed", "threads": [[("cb", "ok"), ("result", None), ("done",)]], "exec_first": True},
@@ -462,7 +475,7 @@ def dfs_oracle(case):
 
 
 ops = st.one_of(
-    st.tuples(st.just("cb"), st.sampled_from(["ok", "ok", "raise", "arity", "same", "same", "flex-typeerror", "flex-ok", "method", "method", "callable-object", "partial"])),
+    st.tuples(st.just("cb"), st.sampled_from(["ok", "ok", "raise", "arity", "same", "same", "flex-typeerror", "flex-ok", "method", "method", "callable-object", "partial", "partial-raise", "object-raise"])),
     st.just(("done",)),
     st.tuples(st.just("result"), st.sampled_from([None, 0.5, 2.0, 0, 0.0, -1])),
 )
@@ -497,7 +510,7 @@ SUBS = [
 
 CLAIM = {
     "technique": "schedule-owning property-based testing: bounded-exhaustive enumeration of thread schedules plus Hypothesis-generated programs and schedules, history oracle",
-    "text": "The real FutureResult code runs on real threads serialised by a deterministic scheduler; all schedules with <= k non-default choices of 22 micro-programs are enumerated (sync and line granularity) and thousands of generated (program, schedule) pairs are run; a history oracle checks done/result/callback protocol. Exhaustive only within the preemption bound on the listed programs.",
+    "text": "The real FutureResult code runs on real threads serialised by a deterministic scheduler; all schedules with <= k non-default choices of 23 micro-programs are enumerated (sync and line granularity) and thousands of generated (program, schedule) pairs are run; a history oracle checks done/result/callback protocol. Exhaustive only within the preemption bound on the listed programs.",
     "note": "Trusts vlib/detsched.py (simulated Lock/RLock/Condition/Event/Thread with FIFO wake-up and a virtual clock) to produce only legal CPython executions; granularity is synchronisation operations and source lines, not bytecodes.",
     "design_ref": "DESIGN.md section 4, C16; section 2.2 E2",
     "engine": "E2",
